@@ -159,6 +159,28 @@ let () =
           | "take" -> let r = n_of_dec rest in s := step !s (ETake r); s := run_thread (t_reader r) (-1) !s; obs !s
           | "drop" -> let r = n_of_dec rest in s := step !s (EDrop r); s := run_thread (t_reader r) (-1) !s; obs !s
           | "dropbegin" -> s := step !s (EDrop (n_of_dec rest)); obs !s
+          | "dropfine" ->
+              (* reader R lets go, one fine-grained step at a time (ModelLock.fstep with the table
+                 lock); when it is inside dec_and's callback for sst X, compaction thread J is
+                 offered one step: with the lock it waits (the state does not change) *)
+              (match split ' ' rest with
+               | [r; x; j] ->
+                   let r = n_of_dec r and x = n_of_hex x and tj = t_compact (n_of_dec j) in
+                   let ls = ref (fstep true (!s, None) (EDrop r)) in
+                   let window = ref "none" and guard = ref 100000 in
+                   while pc_of (t_reader r) (fst !ls) <> [] && !guard > 0 do
+                     ls := fstep true !ls (EStep (t_reader r));
+                     (match snd !ls with
+                      | Some (_, y) when y = x && !window = "none" ->
+                          let before = !ls in
+                          let after = fstep true before (EStep tj) in
+                          window := if fst after = fst before then "blocked" else "entered";
+                          ls := after
+                      | _ -> ());
+                     decr guard
+                   done;
+                   s := fst !ls; "DROPFINE " ^ !window ^ " " ^ obs !s
+               | _ -> "BAD")
           | "flush" | "flushbegin" ->
               (match split ' ' rest with
                | [x; r] -> s := step !s (EFlush (n_of_hex x, b r));
